@@ -194,8 +194,18 @@ class Real:
                 elif k == "verbose":
                     PE.verbose_stacktrace = op[1]
                 elif k == "new":
-                    n = len(W["users"]) % 4
-                    W["users"].append([pp.Word("ab"), pp.Literal("x"), pp.Keyword("if"), pp.Regex("a+")][n])
+                    n = len(W["users"]) % len(self.PROBE_TEXT)
+
+                    def fwd():
+                        f = pp.Forward()
+                        f <<= pp.Word("ab") + pp.Opt("(" + f + ")")
+                        return f
+                    # tokens and composites: a composite derives its whitespace set (and whether it still follows the default)
+                    # from its parts when it is constructed, and a Forward when it is assigned
+                    mk = [lambda: pp.Word("ab"), fwd, lambda: pp.Word("ab") + pp.Literal("x"), lambda: pp.Literal("x"),
+                          lambda: pp.Group(pp.Word("ab")), lambda: pp.Keyword("if"), lambda: pp.OneOrMore(pp.Literal("x")), lambda: pp.Regex("a+"),
+                          lambda: pp.Literal("x") | pp.Word("ab"), lambda: pp.Opt(pp.Word("ab")) + pp.Literal("x")]
+                    W["users"].append(mk[n]())
                     W["probe"].append(self.PROBE_TEXT[n])
                 elif k == "copy":
                     W["users"].append(W["users"][op[1]].copy())
@@ -311,7 +321,7 @@ class Real:
             viol.append({"kind": "restore", "exit": exit_exc or "ok", "fields": sorted(names), "path": path,
                          "before": {f: before[f] for f in diff}, "after": {f: after[f] for f in diff}})
 
-    PROBE_TEXT = ["ab", "x", "if", "aa"]       # matched by Word("ab"), Literal("x"), Keyword("if"), Regex("a+") created by "new"
+    PROBE_TEXT = ["ab", "ab", "abx", "x", "ab", "if", "x", "aa", "x", "abx"]      # matched by the expressions that "new" creates, in that order
     PROBE_WS = [" ", "\n", "\r", "q", "z"]      # candidate leading characters (none occurs in a probe text; no TAB: expandtabs)
 
     def behaviour(self, W, viol):
